@@ -259,7 +259,17 @@ func (engine) Body(r *simdrv.Run) {
 	}
 	w.delays = clamp(w.delays)
 	times = clamp(times)
+	// one run in eight is a "shutdown race" burst: blocking mode, tiny queue, several enders and a
+	// Shutdown all at once - the neighbourhood in which an End can pass the stopped check, lose the
+	// race against the drain and then find the queue full with nobody left to read it.
+	burst := r.Cfg(8) == 0
+	if burst {
+		w.blocking, w.q, w.b = true, 1, 1
+	}
 	nEnders := 1 + r.Cfg(4)
+	if burst {
+		nEnders = 3 + r.Cfg(2)
+	}
 	enders := make([][]step, nEnders)
 	for i := range enders {
 		n := 1 + r.Cfg(6)
@@ -296,6 +306,7 @@ func (engine) Body(r *simdrv.Run) {
 		}
 		plans = append(plans, p)
 	}
+	r.Res.Config["burst"] = burst
 	r.Res.Config["q"] = w.q
 	r.Res.Config["b"] = w.b
 	r.Res.Config["blocking"] = w.blocking
